@@ -33,6 +33,10 @@ CLAIMED = {
  "C11": dict(cat="model_checking", ref="6 C11",
    tech="TLC: CelContext state graph with invariants/action properties; every transition replayed on a real Context (transition coverage) and validated by CelContextTrace; macro scoping model-checked in CelEval and replayed",
    text="The scope-chain machine (define, redefine, open, close, register function) is model-checked over its whole state graph (InnermostWins, ParentsFrozen, CloseRestores, NamespacesDisjoint). Every edge of the graph is driven on a real cel-rust Context from a shortest path and all lookups in both namespaces are compared after each operation and during scope drop; random histories up to 200 operations are validated the same way. Macro scoping: all programs nesting macros over clashing names are model-checked (ScopeDiscipline) and executed."),
+ "C02": dict(cat="model_checking", ref="6 C02",
+   tech="TLC: totality (NoStuck/Bounded) of the CelEval machine over all small ill- and well-typed programs; trace validation where a panic/time-out event has no spec action; kind table and host-operator pair table",
+   text="The specification is total: TLC shows that every operator x operand-kind combination has a rule giving a value or an error class (no stuck state) on all programs with <=2 operators over one leaf per kind. cel-rust is then driven over random untyped programs (depth<=8), an exhaustive one-level table of ~120 program forms x every pair of ~60 values of all kinds and extremes, and all pairs of ~110 values under the host-side operators; a recorded panic or time-out is rejected because no behaviour of the specification contains it. Observed, not proved: exploration guided and judged by the model.",
+   note="Absence of panics on unexplored inputs is not established; the watchdog/recursion limits of the ANTLR runtime and stack overflow on very deep nesting are outside the explored depth (<=8). " + NOTE_COMMON),
 }
 
 def main():
